@@ -137,3 +137,14 @@ fn f10_extract_redundant_slot_occurring_twice() {
     let back = lookup_rec_expr(&t, &eg).expect("extracted term must be represented");
     assert!(eg.eq(&back, &a));
 }
+
+// F11: "$f1073741823" made the fresh counter overflow (panic in debug, wrap to 1 in release)
+#[test]
+fn f11_largest_f_name() {
+    let s = Slot::named("f1073741823");
+    assert_eq!(s.to_string(), "$f1073741823");
+    let t = Slot::named("f1073741822");
+    assert_eq!(t.to_string(), "$f1073741822");
+    assert_ne!(s, t);
+    let _ = Pattern::<T>::parse("(var $f1073741823)");
+}
